@@ -6,7 +6,17 @@
 #include <stdarg.h>
 typedef struct pam_handle pam_handle_t;
 #define PAM_SUCCESS 0
+#define PAM_OPEN_ERR 1
+#define PAM_SYMBOL_ERR 2
+#define PAM_SERVICE_ERR 3
+#define PAM_SYSTEM_ERR 4
 #define PAM_BUF_ERR 5
+#define PAM_PERM_DENIED 6
+#define PAM_CRED_INSUFFICIENT 8
+#define PAM_USER_UNKNOWN 10
+#define PAM_MAXTRIES 11
+#define PAM_IGNORE 25
+#define PAM_ABORT 26
 #define PAM_AUTH_ERR 7
 #define PAM_AUTHINFO_UNAVAIL 9
 #define PAM_CRED_ERR 17
